@@ -31,7 +31,7 @@ def _fixture_init(name: str) -> bytes:
     return data[:end]
 
 
-def patched_init(kind='video', encrypted=False, timescale=1000, track_id=1, iv_size=8, trex_duration=None) -> bytes:
+def patched_init(kind='video', encrypted=False, timescale=1000, track_id=1, iv_size=8, trex_duration=None, kid=None) -> bytes:
     src = {('video', False): 'bbb_v7.mp4', ('video', True): 'bbb_v7_enc.mp4',
            ('audio', False): 'bbb_a1.mp4', ('audio', True): 'bbb_a1_enc.mp4'}[(kind, encrypted)]
     data = bytearray(_fixture_init(src))
@@ -52,6 +52,8 @@ def patched_init(kind='video', encrypted=False, timescale=1000, track_id=1, iv_s
         for b in moov.walk():
             if b.type == b'tenc':
                 data[b.start + 8 + 4 + 3] = iv_size
+                if kid is not None:
+                    data[b.start + 16:b.start + 32] = kid
     return bytes(data)
 
 
@@ -156,12 +158,12 @@ def make_fragment(seq, track_id, decode_time, sample_durs, sample_sizes, payload
 def make_file(*, kind='video', timescale=1000, durations=(2000, 3000, 2500, 1500, 4000), start_time=0,
               tfdt='v1', styp=False, sidx=False, base='moof', samples_per_seg=2, encrypted=False, iv_size=8,
               subsamples=False, file_id=1, track_id=1, start_number=1, sample_size=40,
-              per_sample_saiz=False, extra_kids=(), dur_from='trun', trex_duration=None) -> bytes:
+              per_sample_saiz=False, extra_kids=(), dur_from='trun', trex_duration=None, kid=None) -> bytes:
     moof_pssh = None
     if extra_kids:
         moof_pssh = fullbox(b'pssh', 1, 0, COMMON_SYSTEM_ID + struct.pack('>I', len(extra_kids)) +
                             b''.join(extra_kids) + struct.pack('>I', 0))
-    init = patched_init(kind, encrypted, timescale, track_id, iv_size, trex_duration)
+    init = patched_init(kind, encrypted, timescale, track_id, iv_size, trex_duration, kid)
     out = bytearray(init)
     t = start_time
     for i, d in enumerate(durations):
@@ -181,6 +183,7 @@ def make_file(*, kind='video', timescale=1000, durations=(2000, 3000, 2500, 1500
 
 COMMON_SYSTEM_ID = bytes.fromhex('1077efecc0b24d02ace33c1e52e2fb4b')
 SECOND_KID = bytes.fromhex('0102030405060708090a0b0c0d0e0f10')
+AUDIO_KID = bytes.fromhex('a1a2a3a4a5a6a7a8a9aaabacadaeaf00')
 
 # The catalogue of synthetic streams used by the checks (name -> {file name: recipe})
 RECIPES = {
@@ -239,6 +242,9 @@ RECIPES = {
         'synmk_v1_enc': dict(kind='video', timescale=1000, durations=(2000, 2000, 2000), file_id=13,
                              encrypted=True, iv_size=8, extra_kids=(SECOND_KID,)),
         'synmk_a1': dict(kind='audio', timescale=48000, track_id=2, durations=(96000, 96000, 96000), file_id=14),
+        # ... and an audio track under a key of its own
+        'synmk_a1_enc': dict(kind='audio', timescale=48000, track_id=2, durations=(96000, 96000, 96000), file_id=14,
+                             encrypted=True, iv_size=8, kid=AUDIO_KID),
     },
 }
 
